@@ -40,7 +40,7 @@ PROBES = ["undisturbed-ok", "multi-subblock", "blksize-changed", "retransmit", "
 
 LENS = (1, 6, 7, 8, 13, 14, 15, 20, 21, 22, 27, 28, 29, 34, 35, 36, 50, 100, 888, 889, 890, 896, 897, 1779)
 BLK = (127, 1, 2, 3, 4, 7, "rnd")
-FAULTS = ("none", "drop-seg", "drop-ack", "dup-seg", "late-ack", "multi-drop")
+FAULTS = ("none", "drop-seg", "drop-ack", "dup-seg", "late-ack", "multi-drop", "drop-end-req", "drop-end-resp")
 POS = tuple(range(24)) + ("last", "last-1", "last-2", "last-3")
 
 
@@ -58,6 +58,9 @@ def jobs(tier, seed):
                     enum.append((li, b, crc, 1, p))
                 for p in (0, 24):
                     enum.append((li, b, crc, 2, p))
+                if b in (0, 1, 6):
+                    enum.append((li, b, crc, 6, 0))     # the end request never reaches the server
+                    enum.append((li, b, crc, 7, 0))     # the server's end confirmation is lost
     return enum, (200_000 if tier == "quick" else 4_000_000)
 
 
@@ -71,6 +74,7 @@ class Plan(Transport):
         self.dup_seg = None
         self.drop_ack = None
         self.late_ack = None
+        self.drop_end = None        # "req" | "resp"
         self.fired = 0
         self.timeout = 0.3
         self.lost_info = []         # (sub-block index, seq, blksize, c) of lost first-pass segments
@@ -85,6 +89,10 @@ class Plan(Transport):
         d = frame.data
         if frame.src == "master" and dst.name == "server":
             st = srv.state
+            if self.drop_end == "req" and st is not None and st["k"] == "bd" and st["phase"] != "sub" and d[0] & 0xE3 == 0xC1 and not self.fired:
+                self.fired += 1
+                ctx.fault("drop-end-req")
+                return []
             if st is None or st["k"] != "bd" or st["phase"] != "sub" or d[0] == 0x80:
                 return [(lat, None)]
             k = self.seg
@@ -100,6 +108,10 @@ class Plan(Transport):
                 self.dup_frame = bytes(d)
                 return [(lat, None), (lat, None)]
             return [(lat, None)]
+        if frame.src == "server" and dst.name == "master" and d[0] == 0xA1 and self.drop_end == "resp" and not self.fired:
+            self.fired += 1
+            ctx.fault("drop-end-resp")
+            return []
         if frame.src == "server" and dst.name == "master" and d[0] == 0xA2:
             k = self.acks
             self.acks += 1
@@ -159,6 +171,8 @@ def scenario(ctx):
         plan.drop_ack = 0 if pi == 0 else (ctx.choice(4, "ackidx") if pi != 24 else -1)
     elif fault == "late-ack":
         plan.late_ack = ctx.choice(3, "ackidx")
+    elif fault in ("drop-end-req", "drop-end-resp"):
+        plan.drop_end = fault[9:]
     index, sub = 0x2000 + ctx.choice(0x100, "idx"), ctx.choice(256, "sub")
     data = world.pattern(length, 1 + ctx.choice(200, "salt"))
     if length >= 3 and ctx.choice(8, "crc0") == 0:
